@@ -56,7 +56,7 @@ fn build(c: &'static Coin, case: &Case) -> ChainBuilder {
         let h = case.base + i as u64;
         let reward = base_reward(h);
         let v = if case.cb_delta == i64::MIN { 0 } else { (reward as i64 + case.cb_delta).max(0) as u64 };
-        let mut txs = vec![coinbase(h, 5, vec![pay(1, v), pay(2, 1234)])];
+        let mut txs = vec![coinbase(h, 5, vec![pay(1, v), pay(2, 1234), TxOut { value: 0, script: refmodel::script::op_return(format!("block {}", h).as_bytes()) }])];
         txs.extend(mix_txs(case.mix, h));
         if case.types_world && i == 0 {
             let scripts = representatives(c, true);
